@@ -264,9 +264,10 @@ inline sim::Plan genPlan(uint64_t seed, const std::string &profile, bool thoroug
     int pReject = 0, pSnap = 0, pPersist = 0, pReplica = 0, pAlg = 0, pIo = 0;
     if (profile == "C01" || profile == "C02" || profile == "C03" || profile == "C04" || profile == "C05") {
         pReject = rate({0, 30, 100}); pSnap = rate({0, 30, 60}); pPersist = rate({0, 30, 60}); pReplica = rate({0, 0, 20});
-    } else if (profile == "C06") { pReplica = rate({100, 200, 300}); pSnap = rate({40, 80, 150}); pPersist = rate({0, 30}); }
+        pAlg = rate({0, 20, 40}); // const operations (searches, conversions, subgraphs, printing) between mutations: must change nothing
+    } else if (profile == "C06") { pReplica = rate({100, 200, 300}); pSnap = rate({40, 80, 150}); pPersist = rate({0, 30}); pAlg = rate({0, 20}); }
     else if (profile == "C07") { pReject = rate({300, 400, 500}); pSnap = rate({0, 30}); }
-    else if (profile == "C16") { pSnap = rate({0, 20}); }
+    else if (profile == "C16") { pSnap = rate({0, 20}); pAlg = rate({0, 20}); }
     else if (profile == "C17") { pAlg = rate({100, 200, 300}); pSnap = rate({20, 50}); pPersist = rate({30, 60}); pReplica = rate({0, 30}); pIo = rate({0, 40, 80}); }
     else if (profile == "C18") { pAlg = rate({100, 200, 300}); pSnap = rate({20, 50}); pPersist = rate({30, 60}); pReplica = rate({0, 30}); pIo = rate({0, 30}); }
     else if (profile == "C13" || profile == "C14" || profile == "C15") { pIo = rate({150, 300, 450}); pPersist = rate({100, 200}); nops = 1 + (int)r.below(thorough ? 40 : 20); }
